@@ -373,6 +373,8 @@ Definition decode_mode (l : list Z) : list cmode :=
   match l with
   | [0; 0; _] => [MFn] | [0; 1; _] => [MFut] | [0; 2; _] => [MLate] | [0; 3; _] => [MLate2] | [0; 4; v] => [MPre v]
   | [0; 5; _] => [MCoro] | [0; 6; _] => [MLate3]
+  | [0; 7; _] => [MFut]          (* shared_future<T> from a function returning future<T&>, resolved through promise<T&>:
+                                    same code path and points as MFut; the state then refers to an object it does not own *)
   | _ => []
   end.
 Definition decode_res (l : list Z) : list rkind :=
